@@ -269,6 +269,10 @@ def worker(args):
             viol.append(("probe:" + shape_of(src)[:60], "`#[display(\"{%d:?}\", %s, __probe)]`: index %d does not reach the probe field (%s)" % (len(want), src, len(want), o["probe"]),
                          {"args": src, "outcome": o}))
             continue
+        if o.get("alias") in ("differs", "panic"):
+            viol.append(("alias-spacing:" + shape_of(src.split(",")[0])[:40], "`al=<expr>` and `al = <expr>` expand differently for the first argument of `%s` (%s)" % (src, o.get("alias")), {"args": src, "outcome": o}))
+        elif o.get("alias") == "same":
+            stats["alias_spacing_checked"] = stats.get("alias_spacing_checked", 0) + 1
         stats["reemit_checked"] += 1
         if o["reemit"] != "verbatim":
             viol.append(("reemit:" + shape_of(src)[:60], "arguments `%s` are not handed to write! token for token (%s)" % (src, o["reemit"]), {"args": src, "outcome": o}))
